@@ -129,6 +129,11 @@ class GrowLanguage(Facet):
                 f"C04/{self.name}/path-raised/{exc_bucket(exc)}",
                 f"decision path {[t[2] for t in trace]} of {self.decider} creation at d={d} raised {exc!r}; grammar {spec_str(case['spec'])}",
             )
+        # root-cause attribution: a wrong recursive set (C05's subject) changes what the deciders prefer;
+        # violations that come with it are not the recorded FullDecider-heuristic findings
+        lib_rec = {w.mat.names[x] for x in w.grammar.recursive_prods if x in w.mat.names}
+        ref_rec = {n for n in info.recursive() if n in info.registered()}
+        self.attribution = "" if lib_rec == ref_rec else "/grammar-reports-wrong-recursive-set"
         self.compare(case, rec, w, d, ref, got, complete)
         if len(ref) >= 5 and info.recursive():
             rec.nontrivial((case["spec"], d, self.decider))
@@ -138,7 +143,7 @@ class GrowLanguage(Facet):
         for c in extra[:2]:
             why = "deeper than d" if canon_depth(c) > d else "not in the reference language"
             rec.fail(
-                f"C04/{self.name}/extra/{'too-deep' if canon_depth(c) > d else 'not-in-reference-set'}",
+                f"C04/{self.name}/extra/{'too-deep' if canon_depth(c) > d else 'not-in-reference-set'}{getattr(self, 'attribution', '')}",
                 f"{self.decider} creation at d={d} reaches {canon_str(c)} ({why}) via draws {got[c]}; grammar {spec_str(case['spec'])}",
             )
         if complete:
@@ -147,7 +152,7 @@ class GrowLanguage(Facet):
                 only_empty = all(_has_empty_list(c) for c in missing)
                 ex = sorted(missing, key=lambda c: (canon_depth(c), len(str(c))))[0]
                 rec.fail(
-                    f"C04/{self.name}/missing/{'only-programs-with-an-empty-list' if only_empty else 'general'}",
+                    f"C04/{self.name}/missing/{'only-programs-with-an-empty-list' if only_empty else 'general'}{getattr(self, 'attribution', '')}",
                     f"{self.decider} creation at d={d}: {len(missing)} of {len(ref)} valid programs are unreachable over all {len(got)} reachable ones, e.g. {canon_str(ex)}; grammar {spec_str(case['spec'])}",
                 )
 
